@@ -7,7 +7,9 @@
      run ops init          the state after the operation history `ops` (ANY list of `op`:
                            from_shape, from_data, get_data, set_data, __getitem__, __setitem__,
                            field arithmetic, field flatten, set_flattened, flatten, add_fields,
-                           remove_fields, copy — valid or not, errors are values)
+                           remove_fields, copy, the attribute setters fields / units / shape / data /
+                           name (+ metadata item assignment), _FieldView.__getitem__, save + load —
+                           valid or not, errors are values)
      heap s                the numpy arrays alive (id = position); cell = {ncols; rows}
      vecs s                the live Vector objects {vshape; vfields; vunits; vdata; vmeta}
      shaped sh t           the nested lists `t` have exactly the nesting given by `sh`
@@ -17,7 +19,7 @@
      cell_col k h x / cell_rows h x   column k / all rows of the array behind the cell x ([] if unset) *)
 From QV.lib Require Import Prelude C11_Heap.
 From QV.model Require Import C11_Model.
-From QV.proof Require Import C11_Proofs C11_Proofs_Hist.
+From QV.proof Require Import C11_Proofs C11_Proofs_Hist C11_Proofs_Ext.
 From Coq Require Import QArith.
 Local Close Scope Q_scope.
 
@@ -293,4 +295,177 @@ Proof. eexists. vm_compute. split; reflexivity. Qed.
 Example C11_nonvacuous_get_data_3d :
   exists ls, step (run C11_ex_ops init) (OGetData 1 [IInt 0; ISlice None None None; IList [1; 0]%Z])
              = (run C11_ex_ops init, RCells ls) /\ length ls = 4.
+Proof. eexists. vm_compute. split; reflexivity. Qed.
+
+(* ==========================================================================================
+   Coverage extension (round 3): the public attribute setters, _FieldView.__getitem__, index tuples
+   longer than the number of fixed dimensions, save + load.  These operations are constructors of
+   `op`, so theorem 1 (C11_vec_inv_reachable) and every `forall ops` above range over them too.
+   ========================================================================================== *)
+
+(* ------------------------------------------------------------------------------------------
+   8. The attribute setters cannot break the schema.
+      (a) v.fields = value is either rejected with the state untouched, or a pure renaming: as many
+          pairwise distinct names as before, in the given order; units, shape, cells, metadata dict of
+          v, the heap and every other vector are unchanged (names stay one-to-one with units/columns);
+      (b) v.units = value: rejected, or exactly one unit per field (None = the default units);
+      (c) v.shape = value never changes the state and succeeds only for the shape v already has;
+      (d) v.data = value, when accepted, leaves nested lists with exactly the nesting of the shape
+          (ANY number of fixed dimensions) whose cell at address p IS the array given at address p of
+          the argument; when rejected the state is untouched. *)
+Theorem C11_set_fields_spec :
+  forall s vi a s' r,
+    step s (OSetFields vi a) = (s', r) ->
+    (r = RNone /\
+     exists v l, nth_error (vecs s) vi = Some v /\ a = NList l /\ NoDup l /\ length l = length (vfields v) /\
+       heap s' = heap s /\ nmeta s' = nmeta s /\
+       vecs s' = upd_nth vi (mkVec (vshape v) l (vunits v) (vdata v) (vmeta v)) (vecs s))
+    \/ (r <> RNone /\ s' = s).
+Proof. exact set_fields_spec. Qed.
+Print Assumptions C11_set_fields_spec.
+
+Theorem C11_set_units_spec :
+  forall s vi a s' r,
+    step s (OSetUnits vi a) = (s', r) ->
+    (r = RNone /\
+     exists v us, nth_error (vecs s) vi = Some v /\ length us = length (vfields v) /\
+       (a = NNone /\ us = repeat 0%Z (length (vfields v)) \/ a = NList us) /\
+       heap s' = heap s /\ nmeta s' = nmeta s /\
+       vecs s' = upd_nth vi (mkVec (vshape v) (vfields v) us (vdata v) (vmeta v)) (vecs s))
+    \/ (r <> RNone /\ s' = s).
+Proof. exact set_units_spec. Qed.
+Print Assumptions C11_set_units_spec.
+
+Theorem C11_set_shape_inert :
+  forall s vi sh,
+    fst (step s (OSetShape vi sh)) = s /\
+    (snd (step s (OSetShape vi sh)) = RNone ->
+     exists v l, nth_error (vecs s) vi = Some v /\ sh = Some l /\ map Z.to_nat l = vshape v /\
+                 Forall (fun d => 0 < d)%Z l).
+Proof. exact set_shape_inert. Qed.
+Print Assumptions C11_set_shape_inert.
+
+Theorem C11_set_data_attr_spec :
+  forall s vi skel items s',
+    step s (OSetDataAttr vi skel items) = (s', RNone) ->
+    exists v w rv,
+      nth_error (vecs s) vi = Some v /\ eval_avals (vecs s) (heap s) items = (heap s', rv) /\
+      vecs s' = upd_nth vi w (vecs s) /\
+      vshape w = vshape v /\ vfields w = vfields v /\ vunits w = vunits v /\ vmeta w = vmeta v /\
+      shaped (vshape v) (vdata w) /\
+      forall p lf, tget (vdata w) p = Some lf ->
+        exists i id, tget skel p = Some (Some i) /\ nth_error rv i = Some (VId id) /\ lf = Some id.
+Proof. exact set_data_attr_spec. Qed.
+Print Assumptions C11_set_data_attr_spec.
+
+Theorem C11_set_data_attr_rejected :
+  forall s vi skel items s' e, step s (OSetDataAttr vi skel items) = (s', RErr e) -> s' = s.
+Proof. exact set_data_attr_rejected. Qed.
+Print Assumptions C11_set_data_attr_rejected.
+
+(* ------------------------------------------------------------------------------------------
+   9. _FieldView.__getitem__: v[name][idx] is the column of the addressed cell (None for an unset
+      cell); for a slice / list index it is the field view of the slice, whose flatten() is — after any
+      history, for any number of fixed dimensions — the concatenation of that column over the ADDRESSED
+      cells of v in np.ndindex order of the slice. *)
+Theorem C11_field_get_cell :
+  forall s vi v name k idx,
+    nth_error (vecs s) vi = Some v -> index_of name (vfields v) = Some k ->
+    (forall id c, step s (OGetItem vi idx) = (s, RCell (Some id)) -> nth_error (heap s) id = Some c ->
+                  step s (OFieldGet vi name idx) = (s, RCol (col k c))) /\
+    (step s (OGetItem vi idx) = (s, RCell None) -> step s (OFieldGet vi name idx) = (s, RNone)).
+Proof. exact field_get_cell. Qed.
+Print Assumptions C11_field_get_cell.
+
+Theorem C11_field_get_slice :
+  forall ops vi v name k idx s',
+    let s := run ops init in
+    nth_error (vecs s) vi = Some v -> index_of name (vfields v) = Some k ->
+    step s (OGetItem vi idx) = (s', RNew) ->
+    step s (OFieldGet vi name idx) = (s', RNew) /\
+    exists raw idxs,
+      resolve_raw (vshape v) (idx ++ repeat (ISlice None None None) (length (vshape v) - length idx)) = Some raw /\
+      resolve_take (vshape v) raw = inr idxs /\
+      step s' (OFieldFlatten (length (vecs s)) name) =
+        (s', RCol (flat_map (cell_col k (heap s))
+                            (map (fun o => tget (vdata v) (src_of idxs o)) (ndindex (map (@length nat) idxs))))).
+Proof. exact field_get_slice_hist. Qed.
+Print Assumptions C11_field_get_slice.
+
+(* ------------------------------------------------------------------------------------------
+   10. Index tuples longer than the number of fixed dimensions: when some index on a fixed dimension is
+       a slice or a list, the surplus indices are dropped — v[idx] is v[idx truncated to the fixed
+       dimensions], to which theorem 7 applies. *)
+Theorem C11_getitem_extra_indices_dropped :
+  forall s vi v idx,
+    nth_error (vecs s) vi = Some v -> length (vshape v) < length idx ->
+    forallb is_int (firstn (length (vshape v)) idx) = false ->
+    step s (OGetItem vi idx) = step s (OGetItem vi (firstn (length (vshape v)) idx)).
+Proof. exact getitem_extra_indices_dropped. Qed.
+Print Assumptions C11_getitem_extra_indices_dropped.
+
+(* ------------------------------------------------------------------------------------------
+   11. A vector read back from a saved one (AutoSerialize round trip), after any history: same shape /
+       fields / units, equal cell contents, every array new, a new metadata dict — it satisfies the
+       invariant (theorem 1) and shares no mutable state with any vector that existed. *)
+Theorem C11_reload_disjoint :
+  forall ops vi s',
+    let s := run ops init in
+    step s (OReload vi) = (s', RNew) ->
+    exists v w l,
+      nth_error (vecs s) vi = Some v /\ vecs s' = vecs s ++ [w] /\ heap s' = heap s ++ l /\
+      vshape w = vshape v /\ vfields w = vfields v /\ vunits w = vunits v /\
+      map (leaf_val (heap s')) (leaves (vdata w)) = map (leaf_val (heap s)) (leaves (vdata v)) /\
+      (forall u id, In u (vecs s) -> In id (reach u) -> ~ In id (reach w)) /\
+      (forall u, In u (vecs s) -> vmeta w <> vmeta u).
+Proof. exact reload_disjoint_hist. Qed.
+Print Assumptions C11_reload_disjoint.
+
+(* ------------------------------------------------------------------------------------------
+   Non-vacuity of 8-11 on the example state (vector 0: shape (3,), fields 0,1; vector 1: (2,2,2),
+   field 7; vector 2: (2,2), field 0, no cell set). *)
+Example C11_nonvacuous_set_fields :
+  (exists s', step (run C11_ex_ops init) (OSetFields 0 (NList [5; 6]%Z)) = (s', RNone) /\
+              option_map vfields (nth_error (vecs s') 0) = Some [5; 6]%Z) /\
+  step (run C11_ex_ops init) (OSetFields 0 (NList [5; 6; 7]%Z)) = (run C11_ex_ops init, RErr EValue) /\
+  step (run C11_ex_ops init) (OSetFields 0 (NList [5; 5]%Z)) = (run C11_ex_ops init, RErr EValue).
+Proof. split; [eexists; vm_compute; split; reflexivity|]. split; vm_compute; reflexivity. Qed.
+
+Example C11_nonvacuous_set_units :
+  (exists s', step (run C11_ex_ops init) (OSetUnits 1 NNone) = (s', RNone) /\
+              option_map vunits (nth_error (vecs s') 1) = Some [0%Z]) /\
+  step (run C11_ex_ops init) (OSetUnits 1 (NList [1; 2]%Z)) = (run C11_ex_ops init, RErr EValue).
+Proof. split; [eexists; vm_compute; split; reflexivity|]. vm_compute; reflexivity. Qed.
+
+Example C11_nonvacuous_set_shape :
+  snd (step (run C11_ex_ops init) (OSetShape 0 (Some [3]%Z))) = RNone /\
+  snd (step (run C11_ex_ops init) (OSetShape 0 (Some [4]%Z))) = RErr EValue /\
+  snd (step (run C11_ex_ops init) (OSetShape 0 (Some [3; 1]%Z))) = RErr EValue.
+Proof. vm_compute. repeat split; reflexivity. Qed.
+
+(* v.data = [[a, b], [c, d]] on the 2-D vector is accepted and addressed cell by cell; the flat list
+   [a, b] (which the unrepaired setter accepted) is a TypeError *)
+Example C11_nonvacuous_set_data_attr :
+  (exists s', step (run C11_ex_ops init)
+                (OSetDataAttr 2 (Node [Node [Leaf (Some 0); Leaf (Some 1)]; Node [Leaf (Some 2); Leaf (Some 3)]])
+                              [ANew (C11_c1 1); ANew (C11_c1 2); ANew (C11_c1 3); ANew (C11_c1 4)]) = (s', RNone) /\
+              option_map (fun w => tget (vdata w) [1; 0]) (nth_error (vecs s') 2) = Some (Some (Some 12))) /\
+  step (run C11_ex_ops init) (OSetDataAttr 2 (Node [Leaf (Some 0); Leaf (Some 1)]) [ANew (C11_c1 1); ANew (C11_c1 2)])
+    = (run C11_ex_ops init, RErr EType).
+Proof. split; [eexists; vm_compute; split; reflexivity|]. vm_compute; reflexivity. Qed.
+
+Example C11_nonvacuous_field_get :
+  step (run C11_ex_ops init) (OFieldGet 0 1%Z [IInt 1]) = (run C11_ex_ops init, RCol [C11_q1 3; C11_q1 5]) /\
+  step (run C11_ex_ops init) (OFieldGet 1 7%Z [IInt 0; IInt 0; IInt 0]) = (run C11_ex_ops init, RNone) /\
+  exists s', step (run C11_ex_ops init) (OFieldGet 1 7%Z [IInt 1; ISlice (Some 0%Z) (Some 2%Z) None; IInt 1]) = (s', RNew) /\
+             step s' (OFieldFlatten 3 7%Z) = (s', RCol [C11_q1 101; C11_q1 111]).
+Proof. split; [vm_compute; reflexivity|]. split; [vm_compute; reflexivity|]. eexists. vm_compute. split; reflexivity. Qed.
+
+Example C11_nonvacuous_extra_indices :
+  exists s', step (run C11_ex_ops init) (OGetItem 0 [ISlice (Some 0%Z) (Some 2%Z) None; IInt 5]) = (s', RNew) /\
+             option_map vshape (nth_error (vecs s') 3) = Some [2].
+Proof. eexists. vm_compute. split; reflexivity. Qed.
+
+Example C11_nonvacuous_reload :
+  exists s', step (run C11_ex_ops init) (OReload 1) = (s', RNew) /\ length (heap s') = 17.
 Proof. eexists. vm_compute. split; reflexivity. Qed.
